@@ -55,6 +55,16 @@ TopTick(st, u) == EffSelf(st, u).tick
 TieCands(st, u) == {SelfOn(st, u)[k].seq : k \in {j \in 1..Len(SelfOn(st, u)) : SelfOn(st, u)[j].tick = TopTick(st, u)}}
 EffBind(st, s) == IF Recs(st, {"bind"}, s) = <<>> THEN [tag |-> "none", seq |-> 0, tick |-> -1] ELSE Latest(Recs(st, {"bind"}, s))
 BindTieCands(st, s) == LET rs == Recs(st, {"bind"}, s) IN {rs[k].seq : k \in {j \in 1..Len(rs) : rs[j].tick = EffBind(st, s).tick}}
+\* the validity period of the KEY is set by self-CERTIFICATIONS (tags p2 / p3 carry a key expiration time); a revocation of an identity
+\* carries none and does not lift it. With several identities the property does not say whose certification wins: any that sets one.
+ExpClass(tag) == IF tag \in {"p2", "p3"} THEN tag ELSE "none"
+LatestCertTag(st, u) == IF Recs(st, {"cert"}, u) = <<>> THEN "none" ELSE Latest(Recs(st, {"cert"}, u)).tag
+KeyExpiryCands(st, us) == {ExpClass(LatestCertTag(st, u)) : u \in us} \ {"none"}
+KeyExpiryOK(st, got) ==
+  LET ids == {u \in {"A", "B"} : HasUid(st, u)}      \* user ids; a user attribute (IMG) alone may or may not be consulted
+      att == {u \in {"IMG"} : HasUid(st, u)} IN
+  IF KeyExpiryCands(st, ids) # {} THEN got \in KeyExpiryCands(st, ids)
+  ELSE got \in {"none"} \cup KeyExpiryCands(st, att)
 UidRevoked(st, u) == Recs(st, {"certrev"}, u) # <<>>
 SubRevoked(st, s) == Recs(st, {"subrev"}, s) # <<>>
 KeyRevoked(st) == Recs(st, {"keyrev"}, "key") # <<>>
